@@ -1,6 +1,6 @@
 """C08 — diagram-of-states region is total and follows the FCR/NCPR thresholds"""
 from ..runner import Case
-from .. import gen
+from .. import gen, core
 
 ID = "C08"
 STATEFUL = True     # some blocks keep a live object across lines
@@ -19,6 +19,21 @@ EXHAUSTIVE = {"quick": "every (n+, n-, N) with n+ + n- <= N <= 40", "thorough": 
 
 
 def cases(rng, tier):
+    # duplicates of objects with built-up state: every way of copying x every kind of state
+    for l in core.copy_cases(rng, 2 if tier == "quick" else 12, ['region']):
+        yield Case([l], {"kind": "duplicate-of-object"})
+    # the same query several times in a row on one object
+    for c in gen.repeated_call_cases(rng, 8 if tier == "quick" else 60, ['region'], gen.CLAMP_BAND[:8] if False else ()):
+        yield c
+    from ..real import hex6 as _hex6
+    for raw in ("KKKKKKKKKK", "DATA", "README", "LICENSE", "KKEGGGGGGG", "EEEEEEEEGG"):
+        yield Case(["mkcwd %s region" % _hex6(raw), "mkcwd %s specregion" % _hex6(raw)], {"kind": "namesake-file-in-cwd"})
+    # very long chains (> 1000 residues, lengths that are not round numbers)
+    for sq in gen.very_long(rng, tier != "quick"):
+        yield Case(["q %s %s%s" % (q.split(" ")[0], sq, "".join(" " + a for a in q.split(" ")[1:])) for q in ['region']], {"kind": "very-long"})
+    # objects handed back by moves / shuffles, and copy / deepcopy / pickle duplicates of objects with built-up state
+    for l in core.childq_cases(rng, 60 if tier == "quick" else 400, ['region']):
+        yield Case([l], {"kind": "object-from-move-or-copy"})
     # objects built from sequence files (two per block)
     for c in gen.file_cases(rng, 12 if tier == "quick" else 100, ['region']):
         yield c
